@@ -286,13 +286,13 @@ def run(ctx):
     n_tour = len(traces)
 
     # ---------------- random configurations and events --------------------------------------------------------
-    n_cfg, n_ev = (1500, 300) if th else (64, 250)
+    n_cfg, n_ev = (1000, 300) if th else (64, 250)
     rjobs = [(ctx.rng.getrandbits(48), n_ev, 9) for _ in range(n_cfg)]
     seen_cfg = set()
     for job, res in zip(rjobs, pmap(_random_job, rjobs, chunksize=4)):
         cfg, events = res[0], res[1]
         m = {"config": md.cfg_name(cfg), "driver": "random", "seed": job[0], "events": job[1]}
-        seen_cfg.add(md.cfg_name(cfg).split(" init")[0] + md.cfg_name(cfg).split(" R[")[1])
+        seen_cfg.add(md.cfg_name(cfg).split(" init")[0] + " R[" + md.cfg_name(cfg).split(" R[")[1])
         if res[2] == "exc":
             _exception(ctx, cfg, res[3], res[4], m, events)
             continue
@@ -317,23 +317,21 @@ def run(ctx):
     # ---------------- binding demonstration: corrupted traces must be rejected ------------------------------
     bad = []
     for t, v in zip(traces, verdicts):
-        if v[0] != "ACC" or t["cfg"]["w"] == 0:
+        if v[0] != "ACC" or t["cfg"]["w"] == 0 or len(t["steps"]) < 7:
             continue
         sync = [k for k, p in enumerate(t["cfg"]["rp"]) if p["dom"] != "comb"]
-        flip = -1 if t["cfg"]["signed"] else 1
-        if len(bad) == 0 and t["cfg"]["depth"] > 0 and len(t["steps"]) > 6:
+        if len(bad) == 0 and t["cfg"]["depth"] > 0:
             b = copy.deepcopy(t)
             b["steps"][4][9][0] ^= 1                # storage read back differently
             bad.append(b)
-        elif len(bad) == 1 and sync and v[2][0] > 0:
-            b = copy.deepcopy(t)                   # a hook reporting stale read data: output never changes
+        elif len(bad) == 1 and sync and len({s[8][sync[0]] for s in t["steps"]}) > 2:
+            b = copy.deepcopy(t)                   # a hook reporting stale read data: the output never changes
             for s in b["steps"]:
                 s[8][sync[0]] = b["steps"][0][8][sync[0]]
             bad.append(b)
-        elif len(bad) == 2 and sync and len(t["steps"]) > 6:
+        elif len(bad) == 2 and sync:
             b = copy.deepcopy(t)
-            x = b["steps"][5][8][sync[0]]
-            b["steps"][5][8][sync[0]] = (x ^ 1) if not t["cfg"]["signed"] else (x + 1 if x < 0 else x - 1 if x > 0 else -1)
+            b["steps"][5][8][sync[0]] ^= 1          # one wrong bit in one captured word
             bad.append(b)
         if len(bad) == 3:
             break
